@@ -276,6 +276,11 @@ func (e *Engine) freshPtr(v ssa.Value, depth int) bool {
 	case *ssa.Alloc:
 		return true
 	case *ssa.Call:
+		// the result must not have been handed to anyone: every use is a field access, a method call on it
+		// being checked, or the final return
+		if depth == 0 && escapes(x) {
+			return false
+		}
 		if callee := x.Call.StaticCallee(); callee != nil && callee.Blocks != nil && strings.HasPrefix(fnPkgPath(callee), modPath) {
 			for _, b := range callee.Blocks {
 				if len(b.Instrs) == 0 {
@@ -588,4 +593,57 @@ func (w *World) paramFuncValues(p *ssa.Parameter) ([]*ssa.Function, bool) {
 		}
 	}
 	return out, n > 0
+}
+
+
+// escapes: the value is passed to a call (other than as the receiver of the lock-required method under
+// scrutiny), stored, captured or sent before the function returns it.
+func escapes(v ssa.Value) bool {
+	var visit func(v ssa.Value, depth int) bool
+	visit = func(v ssa.Value, depth int) bool {
+		if depth > 4 {
+			return true
+		}
+		for _, ref := range *v.Referrers() {
+			switch u := ref.(type) {
+			case *ssa.FieldAddr, *ssa.Field, *ssa.DebugRef, *ssa.Return:
+			case *ssa.MakeInterface:
+				if visit(u, depth+1) {
+					return true
+				}
+			case *ssa.ChangeInterface:
+				if visit(u, depth+1) {
+					return true
+				}
+			case *ssa.Phi:
+				if visit(u, depth+1) {
+					return true
+				}
+			case *ssa.Extract:
+				if visit(u, depth+1) {
+					return true
+				}
+			case ssa.CallInstruction:
+				// receiver of an invoke / first argument of a method call on the object itself
+				c := u.Common()
+				if c.IsInvoke() && c.Value == v {
+					continue
+				}
+				isRecvOnly := len(c.Args) > 0 && c.Args[0] == v
+				for _, a := range c.Args[1:] {
+					if a == v {
+						isRecvOnly = false
+					}
+				}
+				if c.StaticCallee() != nil && c.StaticCallee().Signature.Recv() != nil && isRecvOnly {
+					continue
+				}
+				return true
+			default:
+				return true
+			}
+		}
+		return false
+	}
+	return visit(v, 0)
 }
